@@ -425,13 +425,21 @@ func frCfgStr(c frCfg) string {
 
 // parse one frame, recover panics
 func (g *frGen) parse(c frCfg, lvl protocol.EncryptionLevel, v protocol.Version, in []byte) (f wire.Frame, cls, consumed int, ok bool) {
+	return g.parseWith(nil, c, lvl, v, in)
+}
+
+// parseWith: p == nil uses a fresh parser (configured by c), otherwise the given long-lived one
+func (g *frGen) parseWith(p *wire.FrameParser, c frCfg, lvl protocol.EncryptionLevel, v protocol.Version, in []byte) (f wire.Frame, cls, consumed int, ok bool) {
 	defer func() {
 		if e := recover(); e != nil {
 			g.monfail("frames/panic", fmt.Sprintf("parser panicked: %v", e), fmt.Sprintf("cfg=%s lvl=%d input=%x", frCfgStr(c), lvl, in))
 			ok = false
 		}
 	}()
-	fr, lt, lb, stage, err := wire.VerifParseNext(c.parser(), in, lvl, v)
+	if p == nil {
+		p = c.parser()
+	}
+	fr, lt, lb, stage, err := wire.VerifParseNext(p, in, lvl, v)
 	cls = wire.VerifErrClass(err)
 	switch {
 	case err == nil:
@@ -471,8 +479,12 @@ func (g *frGen) fuzzEntry(lvl protocol.EncryptionLevel, in []byte) {
 }
 
 func (g *frGen) emitParse(c frCfg, lvl protocol.EncryptionLevel, v protocol.Version, in []byte, bucket string) (wire.Frame, int, int) {
+	return g.emitParseWith(nil, c, lvl, v, in, bucket)
+}
+
+func (g *frGen) emitParseWith(p *wire.FrameParser, c frCfg, lvl protocol.EncryptionLevel, v protocol.Version, in []byte, bucket string) (wire.Frame, int, int) {
 	g.fuzzEntry(lvl, in)
-	f, cls, consumed, ok := g.parse(c, lvl, v, in)
+	f, cls, consumed, ok := g.parseWith(p, c, lvl, v, in)
 	if !ok {
 		return nil, 99, 0
 	}
@@ -859,10 +871,91 @@ func (g *frGen) splitCases(n int) {
 		}
 		g.doSplitCrypto(cf, ms, false)
 	}
-	// replay of the model's refutation witness (FramesStreamProofs.maxdatalen_crypto_refuted_large):
-	// beyond the 2-byte length boundary MaxDataLen is 2 bytes too generous. Packets are at most
-	// MaxPacketBufferSize bytes, so no caller reaches it.
+	// regression of the fixed finding frames/maxdatalen-overshoot-large (MaxDataLen was 2 bytes too
+	// generous once the length field needs 4 bytes): frames larger than 16 kB, monitor only
 	g.doSplitCrypto(&wire.CryptoFrame{Offset: 0, Data: make([]byte, 20000)}, 16390, true)
+	for ms := protocol.ByteCount(16380); ms <= 16400; ms++ {
+		g.doSplitCrypto(&wire.CryptoFrame{Offset: protocol.ByteCount(r.Pick(0, 63, 64, 16384)), Data: make([]byte, 16300+r.Intn(400))}, ms, true)
+	}
+	g.maxDataLenCases()
+}
+
+// MaxDataLen alone, for every maxSize up to the varint range (no data involved): both sides of the
+// points where the length field grows (63/64, 16383/16384, 2^30), for STREAM, CRYPTO and DATAGRAM
+func (g *frGen) maxDataLenCases() {
+	r := g.r
+	v := protocol.Version1
+	sizes := []protocol.ByteCount{}
+	for _, c := range []int64{0, 2, 64, 16384, 1 << 30, 1<<62 - 20} {
+		for d := int64(-2); d <= 14; d++ {
+			if c+d >= 0 {
+				sizes = append(sizes, protocol.ByteCount(c+d))
+			}
+		}
+	}
+	for i := 0; i < 12; i++ {
+		sizes = append(sizes, protocol.ByteCount(g.vv()))
+	}
+	check := func(kind int, sid, off uint64, dlp bool, ms, got protocol.ByteCount, lengthOf func(n protocol.ByteCount) protocol.ByteCount) {
+		fmt.Fprintf(g.w, "CASE 1 (MaxDataLenCase %d %d %d %s %d %d)\n", kind, sid, off, u.B(dlp), ms, got)
+		g.dist["maxdatalen"]++
+		detail := fmt.Sprintf("kind=%d sid=%d off=%d dlp=%v maxSize=%d MaxDataLen=%d", kind, sid, off, dlp, ms, got)
+		if got < 0 || got > ms {
+			g.monfail("frames/split", "MaxDataLen out of range", detail)
+			return
+		}
+		if got > 0 && lengthOf(got) > ms {
+			g.monfail("frames/maxdatalen-overshoot-large", fmt.Sprintf("MaxDataLen(%d)=%d gives a frame of %d bytes", ms, got, lengthOf(got)), detail)
+		}
+		if uint64(got)+1 <= fv8 && lengthOf(got+1) <= ms {
+			g.monfail("frames/split", fmt.Sprintf("MaxDataLen(%d)=%d is not maximal", ms, got), detail)
+		}
+	}
+	vl := func(n protocol.ByteCount) protocol.ByteCount {
+		switch {
+		case uint64(n) <= fv1:
+			return 1
+		case uint64(n) <= fv2:
+			return 2
+		case uint64(n) <= fv4:
+			return 4
+		}
+		return 8
+	}
+	for _, ms := range sizes {
+		func() {
+			defer func() {
+				if e := recover(); e != nil {
+					g.monfail("frames/panic", fmt.Sprintf("MaxDataLen panicked: %v", e), fmt.Sprintf("maxSize=%d", ms))
+				}
+			}()
+			sid, off, dlp := g.vv(), g.vv(), r.Chance(3, 4)
+			if r.Chance(1, 4) {
+				off = 0
+			}
+			sf := &wire.StreamFrame{StreamID: protocol.StreamID(sid), Offset: protocol.ByteCount(off), DataLenPresent: dlp}
+			hdr := sf.Length(v) // no data: header (+ 1 byte of length field)
+			if dlp {
+				hdr--
+			}
+			check(0, sid, off, dlp, ms, sf.MaxDataLen(ms, v), func(n protocol.ByteCount) protocol.ByteCount {
+				if dlp {
+					return hdr + vl(n) + n
+				}
+				return hdr + n
+			})
+			cf := &wire.CryptoFrame{Offset: protocol.ByteCount(off)}
+			ch := cf.Length(v) - 1
+			check(1, 0, off, true, ms, cf.MaxDataLen(ms), func(n protocol.ByteCount) protocol.ByteCount { return ch + vl(n) + n })
+			df := &wire.DatagramFrame{DataLenPresent: dlp}
+			check(2, 0, 0, dlp, ms, df.MaxDataLen(ms, v), func(n protocol.ByteCount) protocol.ByteCount {
+				if dlp {
+					return 1 + vl(n) + n
+				}
+				return 1 + n
+			})
+		}()
+	}
 }
 
 // ---------------------------------------------------------------------------------------
@@ -1098,6 +1191,185 @@ func (g *frGen) relationalCases() {
 	}
 }
 
+// ---------------------------------------------------------------------------------------
+// sequences on ONE long-lived FrameParser (a connection has exactly one: it reuses a single
+// AckFrame, and STREAM frames come from / go back to a sync.Pool)
+// ---------------------------------------------------------------------------------------
+
+// what one parse yields, as comparable text: class, consumed, value, Length(), re-encoding
+func frObs(f wire.Frame, cls, consumed int, v protocol.Version) (s string) {
+	defer func() {
+		if e := recover(); e != nil {
+			s += fmt.Sprintf(" PANIC(%v)", e)
+		}
+	}()
+	s = fmt.Sprintf("class=%d consumed=%d", cls, consumed)
+	if f == nil {
+		return s
+	}
+	s += " value=" + wire.VerifDumpFrame(f) + fmt.Sprintf(" Length=%d", f.Length(v))
+	if sf, ok := f.(*wire.StreamFrame); ok && len(sf.Data) == 0 && !sf.Fin {
+		return s
+	}
+	b, err := f.Append(nil, v)
+	if err != nil {
+		return s + " AppendErr=" + err.Error()
+	}
+	return s + fmt.Sprintf(" reenc=%x", b)
+}
+
+// parse a whole payload frame by frame the way connection.handleFrames does, on the long-lived
+// parser p, and compare every step with a fresh parser on the same remaining bytes
+func (g *frGen) runPayload(p *wire.FrameParser, c frCfg, lvl protocol.EncryptionLevel, v protocol.Version, payload []byte, history *[]string) {
+	rem := payload
+	for k := 0; len(rem) > 0 && k < 12; k++ {
+		in := append([]byte{}, rem...) // exact capacity
+		fl, cl, nl := g.emitParseWith(p, c, lvl, v, in, "sequence")
+		obsL := frObs(fl, cl, nl, v)
+		ff, cf, nf, ok := g.parse(c, lvl, v, append([]byte{}, in...))
+		if ok {
+			if obsF := frObs(ff, cf, nf, v); obsF != obsL {
+				g.monfail("frames/parser-state", fmt.Sprintf("frame %d of a payload parsed on a long-lived FrameParser differs from the same bytes on a fresh parser: long-lived {%s} fresh {%s}", k, obsL, obsF),
+					fmt.Sprintf("cfg=%s lvl=%d frame_bytes=%x parsed_before=[%s]", frCfgStr(c), lvl, in, joinStr(*history)))
+			}
+		}
+		*history = append(*history, fmt.Sprintf("lvl%d:%x", lvl, in[:min(max(nl, 0), len(in))]))
+		if len(*history) > 8 {
+			*history = (*history)[len(*history)-8:]
+		}
+		g.dist["sequence-frames"]++
+		if sf, ok := fl.(*wire.StreamFrame); ok {
+			sf.PutBack() // as the receive stream does once the data is consumed
+		}
+		if sf, ok := ff.(*wire.StreamFrame); ok {
+			sf.PutBack()
+		}
+		if cl != 0 || nl <= 0 || nl > len(rem) {
+			return
+		}
+		rem = rem[nl:]
+	}
+}
+
+func joinStr(xs []string) string {
+	s := ""
+	for i, x := range xs {
+		if i > 0 {
+			s += " "
+		}
+		s += x
+	}
+	return s
+}
+
+func (g *frGen) sequenceCases(n int) {
+	r := g.r
+	v := protocol.Version1
+	enc := func(f wire.Frame) []byte {
+		b, err := f.Append(nil, v)
+		if err != nil {
+			return []byte{0x01}
+		}
+		return b
+	}
+	ack := func(ecn bool, ranges int) wire.Frame {
+		k := 3
+		if ecn {
+			k = 4
+		}
+		af := g.mkFrame(k, -1, 0).(*wire.AckFrame)
+		af.AckRanges = g.ackRanges(ranges, g.vv()|1<<uint(r.Range(12, 40)))
+		if ecn {
+			af.ECT0, af.ECT1, af.ECNCE = uint64(r.Range(1, 70)), g.small(), uint64(r.Intn(3))
+		}
+		return af
+	}
+	stream := func(n int) wire.Frame {
+		return &wire.StreamFrame{StreamID: protocol.StreamID(g.small()), Offset: protocol.ByteCount(g.small()), Data: r.Bytes(n), Fin: r.Bool(), DataLenPresent: true}
+	}
+	// scripted payloads: the state a reused object could leak from one frame into the next
+	scripts := [][]wire.Frame{
+		{ack(true, 1), ack(false, 1)},                                  // ECN counts must not survive into a plain ACK
+		{ack(true, 3), &wire.PingFrame{}, ack(false, 2), ack(false, 1)}, // ... nor across other frames
+		{ack(false, 30), ack(false, 1)},                                // many ranges, then few
+		{ack(true, 64), ack(true, 2), ack(false, 5)},
+		{ack(false, 1), ack(true, 1), ack(false, 1)},
+		{stream(300), stream(130), stream(5), stream(128)}, // pooled buffers: long data, then shorter
+		{stream(1400), stream(200), ack(true, 2), stream(129), ack(false, 2)},
+		{&wire.CryptoFrame{Offset: 5, Data: r.Bytes(50)}, ack(true, 2), &wire.CryptoFrame{Offset: 55, Data: r.Bytes(3)}, ack(false, 1)},
+		{&wire.DatagramFrame{DataLenPresent: true, Data: r.Bytes(40)}, &wire.DatagramFrame{DataLenPresent: true, Data: r.Bytes(2)}, &wire.DatagramFrame{Data: r.Bytes(10)}},
+		{&wire.ConnectionCloseFrame{ErrorCode: 7, FrameType: 3, ReasonPhrase: "a longer reason phrase"}, &wire.ConnectionCloseFrame{IsApplicationError: true, ErrorCode: 1}},
+		{&wire.ResetStreamFrame{StreamID: 4, ErrorCode: 1, FinalSize: 100, ReliableSize: 50}, &wire.ResetStreamFrame{StreamID: 8, ErrorCode: 2, FinalSize: 10}},
+		{&wire.NewTokenFrame{Token: r.Bytes(40)}, &wire.NewTokenFrame{Token: r.Bytes(3)}},
+	}
+	for si, sc := range scripts {
+		c := frCfg{dg: true, rsa: true, af: true, exp: uint8(r.Pick(3, 3, 10))}
+		p := c.parser()
+		var hist []string
+		var payload []byte
+		for _, f := range sc {
+			if r.Chance(1, 3) {
+				payload = append(payload, make([]byte, r.Range(1, 3))...) // PADDING in between
+			}
+			payload = append(payload, enc(f)...)
+		}
+		g.runPayload(p, c, protocol.Encryption1RTT, v, payload, &hist)
+		// the same parser, next packets: an error path (truncated ACK_ECN / STREAM) must not poison what follows
+		bad := enc(ack(true, 4))
+		g.runPayload(p, c, protocol.Encryption1RTT, v, bad[:len(bad)-1-r.Intn(3)], &hist)
+		g.runPayload(p, c, protocol.Encryption1RTT, v, append(enc(ack(false, 2)), enc(sc[si%len(sc)])...), &hist)
+	}
+	// random sequences: several packets of 2-6 frames on one parser, levels interleaved
+	for i := 0; i < n; i++ {
+		c := g.cfg()
+		c.dg, c.rsa, c.af = true, true, true
+		p := c.parser()
+		var hist []string
+		for pk := 0; pk < r.Range(2, 4); pk++ {
+			if pk > 0 && r.Chance(1, 3) { // the connection sets the peer's exponent once the handshake is done
+				c.exp = uint8(r.Pick(0, 3, 8, 20))
+				p.SetAckDelayExponent(c.exp)
+			}
+			lvl := protocol.Encryption1RTT
+			if r.Chance(1, 4) {
+				lvl = frLevels[r.Intn(2)] // Initial / Handshake: the default exponent applies
+			}
+			var payload []byte
+			for k := r.Range(2, 6); k > 0; k-- {
+				var f wire.Frame
+				switch {
+				case lvl != protocol.Encryption1RTT:
+					f = []wire.Frame{ack(false, r.Range(1, 4)), ack(true, r.Range(1, 4)), &wire.PingFrame{}, &wire.CryptoFrame{Offset: protocol.ByteCount(g.small()), Data: r.Bytes(r.Intn(40))}}[r.Intn(4)]
+				case r.Chance(2, 5):
+					f = ack(r.Bool(), int(r.Pick(1, 1, 2, 5, 20, 64)))
+				case r.Chance(1, 3):
+					f = stream(int(r.Pick(0, 1, 50, 127, 128, 129, 400)))
+					if len(f.(*wire.StreamFrame).Data) == 0 {
+						f.(*wire.StreamFrame).Fin = true
+					}
+				default:
+					f = g.mkFrame(r.Intn(frKinds+1), -1, 0)
+					if sf, ok := f.(*wire.StreamFrame); ok {
+						sf.DataLenPresent = true
+						if len(sf.Data) > 400 {
+							sf.Data = sf.Data[:400]
+						}
+					}
+					if df, ok := f.(*wire.DatagramFrame); ok {
+						df.DataLenPresent = true
+					}
+				}
+				e := enc(f)
+				if r.Chance(1, 10) {
+					e = g.mutate(e)
+				}
+				payload = append(payload, e...)
+			}
+			g.runPayload(p, c, lvl, v, payload, &hist)
+		}
+	}
+}
+
 func (g *frGen) mutate(enc []byte) []byte {
 	r := g.r
 	b := append([]byte{}, enc...)
@@ -1232,6 +1504,7 @@ func runFrames(w *bufio.Writer, seed uint64, n int, _ []string) {
 		}
 	}
 	g.relationalCases()
+	g.sequenceCases(n/4 + 10)
 	// (iii) split and truncation
 	g.splitCases(n/3 + 30)
 	g.truncCases(n/3 + 30)
